@@ -20,6 +20,7 @@ import (
 	"time"
 
 	"github.com/database64128/shadowsocks-go/conn"
+	"github.com/database64128/shadowsocks-go/httpproxy"
 	"github.com/database64128/shadowsocks-go/netio"
 	"github.com/database64128/shadowsocks-go/socks5"
 
@@ -323,8 +324,17 @@ func scenario(e *core.Env, ci, k int, r *core.RNG, inst *svx.Instance, down *svx
 			return 0, 0, false
 		}
 		if wm && sc.Fail != "reject" {
-			viol("failure_reply_after_wait", "a failure reply arrived although success had to be signalled first to collect the initial payload: %v", derr)
-			return 0, 0, false
+			// only a protocol failure REPLY contradicts "success had to be signalled first". A transport error while
+			// the dial was still writing its initial payload (the relay, told success, found the onward connection
+			// failing and closed; with TLS a 64 KiB payload is several records) is the close the statement expects.
+			var re socks5.ReplyError
+			var he httpproxy.ConnectNonSuccessfulResponseError
+			if errors.As(derr, &re) || errors.As(derr, &he) {
+				viol("failure_reply_after_wait", "a failure reply arrived although success had to be signalled first to collect the initial payload: %v", derr)
+				return 0, 0, false
+			}
+			rec.Class("%s>%s/fail=%s/closed-during-dial/wait=%v", sc.S, sc.C, sc.Fail, wm)
+			return 0, 0, true
 		}
 		// reply code (exact mapping is judged for direct upstream only; a chained proxy reports what it was told)
 		if strings.HasPrefix(sc.S, "socks5") && sc.C == "direct" {
